@@ -8,7 +8,10 @@ package tbtc
 //
 // The specification does not model SHA-256 or math/rand: their results are
 // hidden choices. The harness therefore records the real calls made by three
-// members (separate executors and chain handles) for many concrete seeds
+// members (separate chain handles; each member keeps ONE long-lived executor
+// per wallet and view for the whole run, as the node does, and the members
+// serve the seeds in different orders / subsets; control calls use fresh
+// executors) for many concrete seeds
 // (wallet public key x safe block hash) with the operator lists and blocks
 // enumerated by TLC, and Trace_Coordination checks that ONE hidden choice per
 // (wallet, hash), per (seed, number of unique operators) and per seed explains
@@ -97,7 +100,6 @@ func TestVerif_C22_Calls(t *testing.T) {
 	}
 	nSeeds := kit.IntEnv("VERIF_SEEDS", 24)
 	nHb := kit.IntEnv("VERIF_HB_SEEDS", 4)
-	perSeed := kit.IntEnv("VERIF_LISTS_PER_SEED", 14)
 	rnd := kit.Rand(2222)
 
 	// five operators, numbered in the order of their addresses
@@ -182,155 +184,278 @@ func TestVerif_C22_Calls(t *testing.T) {
 	rep.Count("seeds", len(seeds))
 	rep.Count("heartbeat_seeds", haveHb)
 
-	seedOwner := map[string]string{} // seed hex -> "w/hash"
-	for si, sc := range seeds {
-		tr.Reset(map[string]interface{}{"seedCase": si})
-		wname := fmt.Sprintf("w%d", sc.w+1)
-		hname := hex.EncodeToString(sc.hash[:])
-		seedHex := hex.EncodeToString(sc.seed[:])
-		cas := map[string]interface{}{"wallet": wname, "safeBlockHash": hname, "seed": seedHex}
-
-		// ---- getSeed: every member, both blocks carrying the hash, and a block without hash
-		for mi, m := range members {
-			for _, blk := range []uint64{sc.block, sc.twin} {
-				s, err := execFor(m, wallets[sc.w], nil).getSeed(blk)
-				if err != nil {
-					rep.Diverge("seed:error", fmt.Sprintf("getSeed(%d) failed although the safe block hash is known: %v", blk, err), cas, "seed", err.Error())
-					tr.Emit(map[string]interface{}{"event": "SeedError", "w": wname})
-					continue
-				}
-				tr.Emit(map[string]interface{}{"event": "Seed", "w": wname, "h": hname, "seed": hex.EncodeToString(s[:]), "member": mi, "block": blk})
-				rep.Eval("", nil)
-				if s != sc.seed {
-					rep.Diverge("seed:not-deterministic", fmt.Sprintf("member %d computes a different coordination seed for the same wallet and safe block hash (coordination block %d vs %d)", mi, blk, sc.block),
-						cas, seedHex, hex.EncodeToString(s[:]))
-				}
-			}
-			if mi == 0 {
-				if s, err := execFor(m, wallets[sc.w], nil).getSeed(sc.missing); err == nil {
-					rep.Diverge("seed:no-error", fmt.Sprintf("getSeed(%d) succeeded although the chain does not know the safe block", sc.missing), cas, "error", hex.EncodeToString(s[:]))
-				} else {
-					tr.Emit(map[string]interface{}{"event": "SeedError", "w": wname})
-				}
-			}
-		}
-		if prev, ok := seedOwner[seedHex]; ok && prev != wname+"/"+hname {
-			rep.Diverge("seed:collision", "two different (wallet, safe block hash) pairs give the same coordination seed", cas, "distinct seeds", prev)
-		}
-		seedOwner[seedHex] = wname + "/" + hname
-
-		// ---- getLeader: operator lists enumerated by TLC, several views of the same set
-		// model operators 1..4 -> an order-preserving choice of 4 of the 5 addresses
+	// ------------------------------------------------------------------
+	// Long-lived executors. node.getCoordinationExecutor keeps ONE executor per
+	// wallet for the life of the node, so every member here keeps ONE real
+	// coordinationExecutor per (wallet, view of its operators) for the whole run.
+	// The members handle the seeds (windows) of a wallet in different orders and
+	// subsets (in order / reversed / a shuffled subset: a member that joined late
+	// or skipped windows); control calls are made on fresh executors.
+	nViews := kit.IntEnv("VERIF_VIEWS", 6)
+	type view struct {
+		c    kit.V
+		ops  []chain.Address
+		nums []int
+	}
+	views := map[int][]*view{} // wallet -> views
+	for w := range wallets {
 		skip := rnd.Intn(5)
-		var mine []chain.Address
+		var mine []chain.Address // model operators 1..4 -> an order-preserving choice of 4 of the 5 addresses
 		for i, a := range addrs {
 			if i != skip {
 				mine = append(mine, a)
 			}
 		}
-		chosen := []kit.V{}
-		for k := 0; k < perSeed; k++ {
-			c := leaderCases[rnd.Intn(len(leaderCases))]
-			chosen = append(chosen, c)
-			same := bySet[c.Get("su").JSON()]
-			for j := 0; j < 2; j++ {
-				chosen = append(chosen, same[rnd.Intn(len(same))])
+		seen := map[string]bool{}
+		add := func(c kit.V) {
+			if seen[c.Get("ops").JSON()] {
+				return
 			}
-		}
-		if kit.Thorough() && si%25 == 0 {
-			chosen = leaderCases
-		}
-		leaderOf := map[string]chain.Address{} // sorted unique set -> leader
-		rankOf := map[int]int{}                // number of unique operators -> rank of the leader
-		for ci, c := range chosen {
-			if ci > 0 && ci%40 == 0 {
-				// keep the call history the trace specification's pairwise invariants range over
-				// short; the hidden choices persist across Reset
-				tr.Reset(map[string]interface{}{"seedCase": si, "part": ci / 40})
-			}
-			var ops []chain.Address
-			var nums []int
+			seen[c.Get("ops").JSON()] = true
+			v := &view{c: c}
 			for _, o := range c.Get("ops").Ints() {
-				ops = append(ops, mine[o-1])
-				nums = append(nums, number[mine[o-1]])
+				v.ops = append(v.ops, mine[o-1])
+				v.nums = append(v.nums, number[mine[o-1]])
 			}
-			m := members[(si+ci)%len(members)]
-			var leader chain.Address
-			func() {
-				defer func() {
-					if r := recover(); r != nil {
-						rep.Diverge("leader:panic", fmt.Sprintf("getLeader panicked: %v", r), cas, nil, fmt.Sprint(r))
-					}
-				}()
-				leader = execFor(m, wallets[sc.w], ops).getLeader(sc.seed)
-			}()
-			tr.Emit(map[string]interface{}{"event": "Leader", "seed": seedHex, "ops": nums, "leader": number[leader]})
-			lc := map[string]interface{}{"wallet": wname, "seed": seedHex, "operators": fmt.Sprint(ops), "operatorNumbers": nums}
-			setKey := c.Get("su").JSON()
-			nt := ""
-			if len(c.Get("ops").Ints()) != c.Get("su").Len() || !sort.IntsAreSorted(c.Get("ops").Ints()) {
-				nt = fmt.Sprintf("%d/%s", si, c.Get("ops").JSON())
-			}
-			rep.Eval(nt, lc)
-			inOps := false
-			for _, o := range ops {
-				if o == leader {
-					inOps = true
+			views[w] = append(views[w], v)
+		}
+		n := nViews
+		if kit.Thorough() && w == 0 {
+			n = 3 * nViews
+		}
+		for k := 0; k < n; k++ {
+			c := leaderCases[rnd.Intn(len(leaderCases))]
+			add(c)
+			same := bySet[c.Get("su").JSON()]
+			add(same[rnd.Intn(len(same))])
+		}
+	}
+	type liveExec struct {
+		id    string
+		ce    *coordinationExecutor
+		calls int
+	}
+	execs := map[string]*liveExec{}
+	events := 0
+	emit := func(ev map[string]interface{}) {
+		if events > 0 && events%40 == 0 {
+			// keep the record set the trace specification's pairwise invariants range over
+			// short; the hidden choices and the executors persist across Reset
+			tr.Reset(nil)
+		}
+		events++
+		tr.Emit(ev)
+	}
+	newExec := func(id string, m *c22Member, w int, v *view) *liveExec {
+		e := &liveExec{id: id, ce: execFor(m, wallets[w], v.ops)}
+		nums := v.nums
+		if nums == nil {
+			nums = []int{}
+		}
+		emit(map[string]interface{}{"event": "NewExecutor", "e": id, "w": fmt.Sprintf("w%d", w+1), "ops": nums})
+		return e
+	}
+	persistent := func(mi, w, vi int) *liveExec {
+		id := fmt.Sprintf("m%d/w%d/v%d", mi, w+1, vi)
+		if e, ok := execs[id]; ok {
+			return e
+		}
+		e := newExec(id, members[mi], w, views[w][vi])
+		execs[id] = e
+		return e
+	}
+
+	type answer struct {
+		leader chain.Address
+		by     string // executor and position in its history
+		view   string
+	}
+	leaderOf := map[string]answer{} // seed/set -> first answer
+	rankOf := map[string]int{}      // seed/size -> rank
+	seedOwner := map[string]string{}
+	tr.Reset(nil)
+
+	askLeader := func(e *liveExec, v *view, sc *seedCase, seedHex string) {
+		var leader chain.Address
+		func() {
+			defer func() {
+				if r := recover(); r != nil {
+					rep.Diverge("leader:panic", fmt.Sprintf("getLeader panicked: %v", r), map[string]interface{}{"executor": e.id, "seed": seedHex}, nil, fmt.Sprint(r))
 				}
+			}()
+			leader = e.ce.getLeader(sc.seed)
+		}()
+		e.calls++
+		by := fmt.Sprintf("%s call %d", e.id, e.calls)
+		emit(map[string]interface{}{"event": "Leader", "e": e.id, "seed": seedHex, "ops": v.nums, "leader": number[leader]})
+		lc := map[string]interface{}{"wallet": e.id, "seed": seedHex, "operators": fmt.Sprint(v.ops), "operatorNumbers": v.nums, "askedOn": by}
+		nt := ""
+		if len(v.c.Get("ops").Ints()) != v.c.Get("su").Len() || !sort.IntsAreSorted(v.c.Get("ops").Ints()) || e.calls > 1 {
+			nt = fmt.Sprintf("%s/%s/%d", seedHex[:8], e.id, e.calls)
+		}
+		rep.Eval(nt, lc)
+		inOps := false
+		for _, o := range v.ops {
+			if o == leader {
+				inOps = true
 			}
-			if !inOps {
-				rep.Diverge("leader:not-an-operator", fmt.Sprintf("getLeader returned %q which is not one of the wallet's operators", leader), lc, "one of the operators", string(leader))
-				continue
-			}
-			if prev, ok := leaderOf[setKey]; ok && prev != leader {
+		}
+		if !inOps {
+			rep.Diverge("leader:not-an-operator", fmt.Sprintf("getLeader returned %q which is not one of the wallet's operators", leader), lc, "one of the operators", string(leader))
+			return
+		}
+		setKey := seedHex + "/" + v.c.Get("su").JSON()
+		viewKey := v.c.Get("ops").JSON()
+		if prev, ok := leaderOf[setKey]; ok && prev.leader != leader {
+			if prev.view == viewKey {
+				rep.Diverge("leader:depends-on-executor-history",
+					fmt.Sprintf("the same seed and the same operator list give leader %s on executor %s and leader %s on executor %s: the answer depends on the calls the executor served before", prev.leader, prev.by, leader, by),
+					lc, string(prev.leader), string(leader))
+			} else {
 				rep.Diverge("leader:depends-on-order-or-repetition",
-					"two views of the same operator set (different order / repetition of seats) give different leaders for the same seed", lc, string(prev), string(leader))
+					"two views of the same operator set (different order / repetition of seats) give different leaders for the same seed", lc, string(prev.leader), string(leader))
 			}
-			leaderOf[setKey] = leader
-			// rank among the sorted unique operators
-			su := c.Get("su").Ints()
-			rank := 0
-			for i, o := range su {
-				if mine[o-1] == leader {
+		} else if !ok {
+			leaderOf[setKey] = answer{leader, by, viewKey}
+		}
+		su := v.c.Get("su").Ints()
+		rank := 0
+		for i, o := range su {
+			for j, x := range v.c.Get("ops").Ints() {
+				if x == o && v.ops[j] == leader {
 					rank = i + 1
 				}
 			}
-			if prev, ok := rankOf[len(su)]; ok && prev != rank {
-				rep.Diverge("leader:rank-not-seed-determined", fmt.Sprintf("for the same seed and %d unique operators the leader is the %d-th smallest address in one call and the %d-th in another", len(su), prev, rank), lc, prev, rank)
-			}
-			rankOf[len(su)] = rank
-			rep.Count(fmt.Sprintf("rank_%d_of_%d", rank, len(su)), 1)
 		}
+		rk := fmt.Sprintf("%s/%d", seedHex, len(su))
+		if prev, ok := rankOf[rk]; ok && prev != rank {
+			rep.Diverge("leader:rank-not-seed-determined", fmt.Sprintf("for the same seed and %d unique operators the leader is the %d-th smallest address in one call and the %d-th in another", len(su), prev, rank), lc, prev, rank)
+		} else if !ok {
+			rankOf[rk] = rank
+		}
+		rep.Count(fmt.Sprintf("rank_%d_of_%d", rank, len(su)), 1)
+	}
 
-		// ---- checklist and window index
-		for ci, c := range checklistCases {
-			b := c22Block(c.Get("b").Int())
-			m := members[(si+ci)%len(members)]
-			idx := newCoordinationWindow(b).index()
-			out := c22Strings(execFor(m, wallets[sc.w], nil).getActionsChecklist(idx, sc.seed))
-			tr.Emit(map[string]interface{}{"event": "Checklist", "seed": seedHex, "b": b, "idx": idx, "out": out})
-			cc := map[string]interface{}{"wallet": wname, "seed": seedHex, "coordinationBlock": b, "heartbeatSeed": sc.hb}
-			nt := ""
-			if c.Get("idx").Int() > 0 {
-				nt = fmt.Sprintf("cl/%d/%d", si, b)
+	seedsOf := map[int][]*seedCase{}
+	for _, sc := range seeds {
+		seedsOf[sc.w] = append(seedsOf[sc.w], sc)
+	}
+	for mi, m := range members {
+		for w := range wallets {
+			// this member's schedule for the wallet
+			sched := append([]*seedCase{}, seedsOf[w]...)
+			switch mi {
+			case 1:
+				for i, j := 0, len(sched)-1; i < j; i, j = i+1, j-1 {
+					sched[i], sched[j] = sched[j], sched[i]
+				}
+			case 2:
+				rnd.Shuffle(len(sched), func(i, j int) { sched[i], sched[j] = sched[j], sched[i] })
+				sched = sched[:(2*len(sched)+2)/3]
 			}
-			rep.Eval(nt, cc)
-			if idx != uint64(c.Get("idx").Int()) {
-				rep.Diverge("checklist:window-index", fmt.Sprintf("coordinationWindow{%d}.index() = %d, specification: %d", b, idx, c.Get("idx").Int()), cc, c.Get("idx").Int(), idx)
-				continue
-			}
-			exp := c.Get("plain").Strs()
-			if sc.hb {
-				exp = c.Get("hb").Strs()
-			}
-			if !c22Eq(out, c.Get("plain").Strs()) && !c22Eq(out, c.Get("hb").Strs()) {
-				rep.Diverge("checklist:shape", fmt.Sprintf("actions checklist for window index %d is %v; the specification allows %v or %v", idx, out, c.Get("plain").Strs(), c.Get("hb").Strs()),
-					cc, []interface{}{c.Get("plain").X, c.Get("hb").X}, out)
-			} else if !c22Eq(out, exp) {
-				rep.Diverge("checklist:heartbeat-not-seed-determined", fmt.Sprintf("window index %d: checklist %v, but window 1 of the same seed %s a heartbeat", idx, out, map[bool]string{true: "has", false: "has no"}[sc.hb]),
-					cc, exp, out)
+			wname := fmt.Sprintf("w%d", w+1)
+			for si, sc := range sched {
+				hname := hex.EncodeToString(sc.hash[:])
+				seedHex := hex.EncodeToString(sc.seed[:])
+				cas := map[string]interface{}{"wallet": wname, "safeBlockHash": hname, "seed": seedHex, "member": mi}
+				main := persistent(mi, w, 0)
+
+				// ---- getSeed on the member's long-lived executor: both blocks carrying the hash
+				for _, blk := range []uint64{sc.block, sc.twin} {
+					s, err := main.ce.getSeed(blk)
+					main.calls++
+					if err != nil {
+						rep.Diverge("seed:error", fmt.Sprintf("getSeed(%d) failed although the safe block hash is known: %v", blk, err), cas, "seed", err.Error())
+						emit(map[string]interface{}{"event": "SeedError", "e": main.id})
+						continue
+					}
+					emit(map[string]interface{}{"event": "Seed", "e": main.id, "h": hname, "seed": hex.EncodeToString(s[:]), "block": blk})
+					rep.Eval("", nil)
+					if s != sc.seed {
+						rep.Diverge("seed:not-deterministic", fmt.Sprintf("member %d computes a different coordination seed for the same wallet and safe block hash (coordination block %d vs %d)", mi, blk, sc.block),
+							cas, seedHex, hex.EncodeToString(s[:]))
+					}
+				}
+				if mi == 0 {
+					if s, err := main.ce.getSeed(sc.missing); err == nil {
+						rep.Diverge("seed:no-error", fmt.Sprintf("getSeed(%d) succeeded although the chain does not know the safe block", sc.missing), cas, "error", hex.EncodeToString(s[:]))
+					} else {
+						emit(map[string]interface{}{"event": "SeedError", "e": main.id})
+					}
+					main.calls++
+					if prev, ok := seedOwner[seedHex]; ok && prev != wname+"/"+hname {
+						rep.Diverge("seed:collision", "two different (wallet, safe block hash) pairs give the same coordination seed", cas, "distinct seeds", prev)
+					}
+					seedOwner[seedHex] = wname + "/" + hname
+				}
+
+				// ---- getLeader on every long-lived executor of this member and wallet
+				for vi, v := range views[w] {
+					e := persistent(mi, w, vi)
+					askLeader(e, v, sc, seedHex)
+					if (si+vi)%5 == 0 {
+						askLeader(e, v, sc, seedHex) // asked again: same answer
+					}
+				}
+				// ---- control: fresh executors
+				if mi == 0 {
+					for k := 0; k < 3; k++ {
+						vi := rnd.Intn(len(views[w]))
+						e := newExec(fmt.Sprintf("fresh/%s/%d/%d", wname, si, k), m, w, views[w][vi])
+						askLeader(e, views[w][vi], sc, seedHex)
+					}
+				}
+
+				// ---- checklist and window index, on the long-lived executor
+				for ci, c := range checklistCases {
+					if mi != 0 && (ci+si)%4 != 0 {
+						continue
+					}
+					b := c22Block(c.Get("b").Int())
+					idx := newCoordinationWindow(b).index()
+					out := c22Strings(main.ce.getActionsChecklist(idx, sc.seed))
+					main.calls++
+					emit(map[string]interface{}{"event": "Checklist", "e": main.id, "seed": seedHex, "b": b, "idx": idx, "out": out})
+					cc := map[string]interface{}{"wallet": wname, "seed": seedHex, "coordinationBlock": b, "heartbeatSeed": sc.hb, "askedOn": fmt.Sprintf("%s call %d", main.id, main.calls)}
+					nt := ""
+					if c.Get("idx").Int() > 0 {
+						nt = fmt.Sprintf("cl/%s/%d/%d", seedHex[:8], b, mi)
+					}
+					rep.Eval(nt, cc)
+					if idx != uint64(c.Get("idx").Int()) {
+						rep.Diverge("checklist:window-index", fmt.Sprintf("coordinationWindow{%d}.index() = %d, specification: %d", b, idx, c.Get("idx").Int()), cc, c.Get("idx").Int(), idx)
+						continue
+					}
+					exp := c.Get("plain").Strs()
+					if sc.hb {
+						exp = c.Get("hb").Strs()
+					}
+					if !c22Eq(out, c.Get("plain").Strs()) && !c22Eq(out, c.Get("hb").Strs()) {
+						rep.Diverge("checklist:shape", fmt.Sprintf("actions checklist for window index %d is %v; the specification allows %v or %v", idx, out, c.Get("plain").Strs(), c.Get("hb").Strs()),
+							cc, []interface{}{c.Get("plain").X, c.Get("hb").X}, out)
+					} else if !c22Eq(out, exp) {
+						rep.Diverge("checklist:heartbeat-not-seed-determined", fmt.Sprintf("window index %d: checklist %v, but window 1 of the same seed %s a heartbeat", idx, out, map[bool]string{true: "has", false: "has no"}[sc.hb]),
+							cc, exp, out)
+					}
+				}
 			}
 		}
 	}
+	// thorough: every operator list enumerated by TLC, on fresh executors, for two seeds
+	if kit.Thorough() {
+		for k, sc := range []*seedCase{seeds[0], seeds[len(seeds)-1]} {
+			seedHex := hex.EncodeToString(sc.seed[:])
+			for ci, c := range leaderCases {
+				v := &view{c: c}
+				for _, o := range c.Get("ops").Ints() {
+					v.ops = append(v.ops, addrs[o-1])
+					v.nums = append(v.nums, o)
+				}
+				e := newExec(fmt.Sprintf("all/%d/%d", k, ci), members[ci%len(members)], sc.w, v)
+				askLeader(e, v, sc, seedHex)
+			}
+		}
+	}
+	rep.Count("executors", len(execs))
 	rep.Count("events", tr.N())
 }
